@@ -3,6 +3,7 @@ package main
 import (
 	"bytes"
 	"fmt"
+	"math"
 	"math/big"
 	"sort"
 	"strings"
@@ -45,9 +46,9 @@ func (c20) Components() map[string]string {
 }
 func (c20) Budget(tier string) int {
 	if tier == "thorough" {
-		return 3000000
+		return 6000000
 	}
-	return 12000
+	return 160000
 }
 
 // ---------------------------------------------------------------------------
@@ -59,6 +60,7 @@ var (
 	c20msg   protoreflect.MessageDescriptor
 	c20sub   protoreflect.MessageDescriptor
 	c20color protoreflect.EnumDescriptor
+	c20shape protoreflect.EnumDescriptor
 )
 
 type c20field struct {
@@ -69,11 +71,28 @@ type c20field struct {
 var c20scalars = []c20field{
 	{"f_bool", "bool"}, {"f_int32", "int32"}, {"f_sint32", "int32"}, {"f_sfixed32", "int32"}, {"f_uint32", "uint32"}, {"f_fixed32", "uint32"},
 	{"f_int64", "int64"}, {"f_sint64", "int64"}, {"f_sfixed64", "int64"}, {"f_uint64", "uint64"}, {"f_fixed64", "uint64"},
-	{"f_float", "float"}, {"f_double", "double"}, {"f_string", "string"}, {"f_bytes", "bytes"}, {"f_enum", "enum"},
+	{"f_float", "float"}, {"f_double", "double"}, {"f_string", "string"}, {"f_bytes", "bytes"}, {"f_enum", "enum"}, {"f_shape", "shape"},
 }
-var c20reps = []c20field{{"r_int32", "int32"}, {"r_uint64", "uint64"}, {"r_string", "string"}, {"r_bytes", "bytes"}, {"r_enum", "enum"}, {"r_sub", "msg:Sub"}}
-var c20maps = []c20field{{"m_ss", "string:string"}, {"m_isub", "int32:msg:Sub"}, {"m_u64", "uint64:int64"}}
+
+// every scalar kind also in repeated position, two enum types and two message types
+var c20reps = []c20field{{"r_int32", "int32"}, {"r_uint64", "uint64"}, {"r_string", "string"}, {"r_bytes", "bytes"}, {"r_enum", "enum"}, {"r_sub", "msg:Sub"},
+	{"r_bool", "bool"}, {"r_uint32", "uint32"}, {"r_int64", "int64"}, {"r_float", "float"}, {"r_double", "double"}, {"r_shape", "shape"}, {"r_rec", "msg:Msg"}}
+
+// map positions: key kinds bool/int32/int64/uint32/uint64/string, value kinds incl. enum, bytes, double, float, messages
+var c20maps = []c20field{{"m_ss", "string:string"}, {"m_isub", "int32:msg:Sub"}, {"m_u64", "uint64:int64"},
+	{"m_bb", "bool:bytes"}, {"m_i64u32", "int64:uint32"}, {"m_u32d", "uint32:double"}, {"m_senum", "string:enum"}, {"m_srec", "string:msg:Msg"}, {"m_i32f", "int32:float"}, {"m_sshape", "string:shape"}}
 var c20subScalars = []c20field{{"s", "string"}, {"n", "int64"}}
+
+// c20allFields: every field name of Msg (sources for the "xset" op).
+var c20allFields = func() []string {
+	var out []string
+	for _, fs := range [][]c20field{c20scalars, c20reps, c20maps} {
+		for _, f := range fs {
+			out = append(out, f.name)
+		}
+	}
+	return append(out, "sub", "rec")
+}()
 
 func c20descriptors() {
 	c20once.Do(func() {
@@ -98,6 +117,9 @@ func c20descriptors() {
 			case typ == "enum":
 				f.Type = T(descriptorpb.FieldDescriptorProto_TYPE_ENUM)
 				f.TypeName = proto.String(".simtest.Color")
+			case typ == "shape":
+				f.Type = T(descriptorpb.FieldDescriptorProto_TYPE_ENUM)
+				f.TypeName = proto.String(".simtest.Shape")
 			case typ == "msg":
 				f.Type = T(descriptorpb.FieldDescriptorProto_TYPE_MESSAGE)
 				f.TypeName = proto.String(typeName)
@@ -126,23 +148,32 @@ func c20descriptors() {
 		}
 		msg.Field = append(msg.Field, field("sub", "msg", opt, ".simtest.Sub"), field("rec", "msg", opt, ".simtest.Msg"))
 		for _, f := range c20reps {
-			if f.kind == "msg:Sub" {
-				msg.Field = append(msg.Field, field(f.name, "msg", rep, ".simtest.Sub"))
+			if strings.HasPrefix(f.kind, "msg:") {
+				msg.Field = append(msg.Field, field(f.name, "msg", rep, ".simtest."+strings.TrimPrefix(f.kind, "msg:")))
 			} else {
 				msg.Field = append(msg.Field, field(f.name, f.kind, rep, ""))
 			}
 		}
-		msg.NestedType = append(msg.NestedType,
-			mapEntry("MSsEntry", field("", "string", opt, ""), field("", "string", opt, "")),
-			mapEntry("MIsubEntry", field("", "int32", opt, ""), field("", "msg", opt, ".simtest.Sub")),
-			mapEntry("MU64Entry", field("", "uint64", opt, ""), field("", "int64", opt, "")))
-		n = 40
-		msg.Field = append(msg.Field, field("m_ss", "msg", rep, ".simtest.Msg.MSsEntry"), field("m_isub", "msg", rep, ".simtest.Msg.MIsubEntry"), field("m_u64", "msg", rep, ".simtest.Msg.MU64Entry"))
+		n = 60
+		for _, f := range c20maps {
+			kk, vk, _ := strings.Cut(f.kind, ":")
+			entry := "M" + strings.ToUpper(f.name[2:3]) + f.name[3:] + "Entry"
+			var vf *descriptorpb.FieldDescriptorProto
+			if strings.HasPrefix(vk, "msg:") {
+				vf = field("", "msg", opt, ".simtest."+strings.TrimPrefix(vk, "msg:"))
+			} else {
+				vf = field("", vk, opt, "")
+			}
+			msg.NestedType = append(msg.NestedType, mapEntry(entry, field("", kk, opt, ""), vf))
+			msg.Field = append(msg.Field, field(f.name, "msg", rep, ".simtest.Msg."+entry))
+		}
 		fd := &descriptorpb.FileDescriptorProto{
 			Name: proto.String("simtest.proto"), Package: proto.String("simtest"), Syntax: proto.String("proto3"),
 			MessageType: []*descriptorpb.DescriptorProto{sub, msg},
 			EnumType: []*descriptorpb.EnumDescriptorProto{{Name: proto.String("Color"), Value: []*descriptorpb.EnumValueDescriptorProto{
-				{Name: proto.String("RED"), Number: proto.Int32(0)}, {Name: proto.String("GREEN"), Number: proto.Int32(1)}, {Name: proto.String("BLUE"), Number: proto.Int32(5)}}}},
+				{Name: proto.String("RED"), Number: proto.Int32(0)}, {Name: proto.String("GREEN"), Number: proto.Int32(1)}, {Name: proto.String("BLUE"), Number: proto.Int32(5)}}},
+				{Name: proto.String("Shape"), Value: []*descriptorpb.EnumValueDescriptorProto{
+					{Name: proto.String("CIRCLE"), Number: proto.Int32(0)}, {Name: proto.String("SQUARE"), Number: proto.Int32(2)}, {Name: proto.String("TRIANGLE"), Number: proto.Int32(9)}}}},
 		}
 		f, err := protodesc.NewFile(fd, nil)
 		if err != nil {
@@ -152,6 +183,7 @@ func c20descriptors() {
 		c20msg = f.Messages().ByName("Msg")
 		c20sub = f.Messages().ByName("Sub")
 		c20color = f.Enums().ByName("Color")
+		c20shape = f.Enums().ByName("Shape")
 	})
 }
 
@@ -161,6 +193,15 @@ func c20descriptors() {
 func bigv(s string) starlark.Value {
 	b, _ := new(big.Int).SetString(s, 10)
 	return starlark.MakeBigInt(b)
+}
+
+// c20newMsg builds a fresh message with one string field set (Go API).
+func c20newMsg(d protoreflect.MessageDescriptor, field, val string) starlark.Value {
+	m, err := starlark.Call(&starlark.Thread{Name: "mk"}, starproto.MessageDescriptor{Desc: d}, nil, []starlark.Tuple{{starlark.String(field), starlark.String(val)}})
+	if err != nil {
+		panic("c20newMsg: " + err.Error())
+	}
+	return m
 }
 
 type c20val struct {
@@ -254,6 +295,96 @@ var c20pool = []c20val{
 	{func() starlark.Value {
 		return starlark.NewList([]starlark.Value{starlark.String("GREEN"), starlark.MakeInt(5)})
 	}, "[enums]"},
+	// (entries below were added later: findings refer to pool entries by index, so new ones go at the end)
+	{func() starlark.Value {
+		return starproto.EnumValueDescriptor{Desc: c20shape.Values().ByName("TRIANGLE")}
+	}, "Shape.TRIANGLE"},
+	{func() starlark.Value { return starlark.String("SQUARE") }, "\"SQUARE\""},
+	{func() starlark.Value { return starlark.MakeInt(9) }, "9"},
+	{func() starlark.Value { return starlark.MakeInt(2) }, "2"},
+	{func() starlark.Value { return starlark.False }, "False"},
+	{func() starlark.Value { return starlark.Float(math.Inf(1)) }, "+inf"},
+	{func() starlark.Value { return starlark.Float(math.Copysign(0, -1)) }, "-0.0"},
+	{func() starlark.Value { return starlark.Float(1e300) }, "1e300"},
+	{func() starlark.Value { return c20newMsg(c20sub, "s", "a-sub-message") }, "Sub(s=..)"},
+	{func() starlark.Value { return c20newMsg(c20msg, "f_string", "a-msg-message") }, "Msg(f_string=..)"},
+	{func() starlark.Value {
+		return starlark.NewList([]starlark.Value{c20newMsg(c20sub, "s", "e0"), c20newMsg(c20sub, "s", "e1")})
+	}, "[Sub,Sub]"},
+	{func() starlark.Value {
+		return starlark.NewList([]starlark.Value{c20newMsg(c20msg, "f_string", "e0"), c20newMsg(c20sub, "s", "e1")})
+	}, "[Msg,Sub]"},
+	{func() starlark.Value {
+		return starlark.NewList([]starlark.Value{starproto.EnumValueDescriptor{Desc: c20shape.Values().ByName("SQUARE")}, starlark.MakeInt(9)})
+	}, "[shapes]"},
+	{func() starlark.Value {
+		return starlark.NewList([]starlark.Value{starproto.EnumValueDescriptor{Desc: c20color.Values().ByName("BLUE")}, starproto.EnumValueDescriptor{Desc: c20shape.Values().ByName("SQUARE")}})
+	}, "[Color,Shape]"},
+	{func() starlark.Value { return starlark.Tuple{starlark.True, starlark.False} }, "(True,False)"},
+	{func() starlark.Value {
+		return starlark.NewList([]starlark.Value{starlark.Float(1.5), starlark.MakeInt(2), starlark.Float(math.Copysign(0, -1))})
+	}, "[floats]"},
+	{func() starlark.Value {
+		return starlark.NewList([]starlark.Value{bigv("4294967295"), starlark.MakeInt(0)})
+	}, "[2^32-1,0]"},
+	{func() starlark.Value {
+		return starlark.NewList([]starlark.Value{bigv("-9223372036854775808"), bigv("9223372036854775807")})
+	}, "[int64 extremes]"},
+	{func() starlark.Value {
+		d := starlark.NewDict(2)
+		d.SetKey(starlark.True, starlark.Bytes("\xff\x00"))
+		d.SetKey(starlark.False, starlark.Bytes(""))
+		return d
+	}, "{bool:bytes}"},
+	{func() starlark.Value {
+		d := starlark.NewDict(2)
+		d.SetKey(bigv("-9223372036854775808"), bigv("4294967295"))
+		d.SetKey(starlark.MakeInt(3), starlark.MakeInt(0))
+		return d
+	}, "{int64:uint32}"},
+	{func() starlark.Value {
+		d := starlark.NewDict(2)
+		d.SetKey(bigv("4294967295"), starlark.Float(2.5))
+		d.SetKey(starlark.MakeInt(0), starlark.MakeInt(7))
+		return d
+	}, "{uint32:double}"},
+	{func() starlark.Value {
+		d := starlark.NewDict(2)
+		d.SetKey(starlark.String("a"), starlark.String("BLUE"))
+		d.SetKey(starlark.String("b"), starlark.MakeInt(1))
+		return d
+	}, "{str:Color}"},
+	{func() starlark.Value {
+		d := starlark.NewDict(2)
+		d.SetKey(starlark.String("a"), starlark.String("TRIANGLE"))
+		d.SetKey(starlark.String("b"), starproto.EnumValueDescriptor{Desc: c20shape.Values().ByName("SQUARE")})
+		return d
+	}, "{str:Shape}"},
+	{func() starlark.Value {
+		d := starlark.NewDict(2)
+		d.SetKey(starlark.String("a"), c20newMsg(c20msg, "f_string", "in-map"))
+		return d
+	}, "{str:Msg}"},
+	{func() starlark.Value {
+		d := starlark.NewDict(2)
+		d.SetKey(starlark.String("a"), c20newMsg(c20sub, "s", "wrong-type-in-map"))
+		return d
+	}, "{str:Sub}"},
+	{func() starlark.Value {
+		d := starlark.NewDict(2)
+		d.SetKey(starlark.MakeInt(-5), starlark.Float(0.5))
+		d.SetKey(bigv("2147483648"), starlark.Float(1))
+		return d
+	}, "{int32-overflow:float}"},
+	{func() starlark.Value {
+		return starlark.NewList([]starlark.Value{c20newMsg(c20msg, "f_string", "m0"), c20newMsg(c20msg, "f_string", "m1")})
+	}, "[Msg,Msg]"},
+	{func() starlark.Value {
+		d := starlark.NewDict(2)
+		d.SetKey(starlark.MakeInt(-5), starlark.Float(0.5))
+		d.SetKey(bigv("2147483647"), starlark.MakeInt(3))
+		return d
+	}, "{int32:float}"},
 }
 
 // c20valuesFor lists pool indexes that make sense for a field (the
@@ -276,19 +407,47 @@ func c20valuesFor(field string) []int {
 	case field == "sub":
 		return byDesc("dict-sub")
 	case field == "r_sub":
-		return byDesc("[sub-dicts]")
+		return byDesc("[sub-dicts]", "[Sub,Sub]", "[Msg,Sub]")
 	case field == "m_isub":
 		return byDesc("{1:sub-dict}")
 	case field == "m_ss":
 		return byDesc("{\"k\":\"v\"}")
 	case field == "m_u64":
 		return byDesc("{2^64-1:-2^63,5:7}")
+	case field == "r_rec":
+		return byDesc("[Msg,Msg]", "[Msg,Msg]", "[Msg,Sub]", "Msg(f_string=..)")
+	case field == "rec":
+		return byDesc("Msg(f_string=..)")
+	case field == "m_bb":
+		return byDesc("{bool:bytes}")
+	case field == "m_i64u32":
+		return byDesc("{int64:uint32}")
+	case field == "m_u32d":
+		return byDesc("{uint32:double}")
+	case field == "m_senum":
+		return byDesc("{str:Color}", "{str:Shape}")
+	case field == "m_sshape":
+		return byDesc("{str:Shape}", "{str:Color}")
+	case field == "m_srec":
+		return byDesc("{str:Msg}", "{str:Sub}")
+	case field == "m_i32f":
+		return byDesc("{int32:float}", "{int32-overflow:float}", "{uint32:double}")
+	case shape == "rep" && kind == "shape":
+		return byDesc("[shapes]", "[Color,Shape]", "[enums]")
+	case shape == "rep" && kind == "bool":
+		return byDesc("(True,False)")
+	case shape == "rep" && (kind == "float" || kind == "double"):
+		return byDesc("[floats]", "[1,2,3]")
+	case shape == "rep" && kind == "uint32":
+		return byDesc("[2^32-1,0]", "[2^64-1,0]")
+	case shape == "rep" && kind == "int64":
+		return byDesc("[int64 extremes]", "[2^64-1,0]")
 	case shape == "rep" && kind == "string":
 		return byDesc("[\"a\",\"b\"]")
 	case shape == "rep" && kind == "bytes":
 		return byDesc("[bytes]")
 	case shape == "rep" && kind == "enum":
-		return byDesc("[enums]")
+		return byDesc("[enums]", "[Color,Shape]")
 	case shape == "rep":
 		return byDesc("[1,2,3]", "[2^64-1,0]")
 	}
@@ -305,6 +464,8 @@ func (c20) Generate(seed uint64, i int, tier string) *Scenario {
 	theme := 0
 	if r.Chance(1, 4) {
 		theme = 1
+	} else if r.Chance(1, 4) {
+		theme = 2
 	}
 	pickField := func(fs []c20field) string { return fs[r.Intn(len(fs))].name }
 	for j := 0; j < n; j++ {
@@ -355,10 +516,61 @@ func (c20) Generate(seed uint64, i int, tier string) *Scenario {
 				op.Op = "mutheld"
 				op.Args = []int64{int64(r.Intn(2))}
 			}
+		case m < 96:
+			op.Op = "frzarg"
+			op.Args = []int64{int64(r.Intn(len(c20frzForms)))}
 		case m < 97:
 			op.Op = "new"
 		default:
 			op.Op, op.S = "newkw", pickField(c20scalars)
+		}
+		if theme == 0 && r.Chance(1, 8) {
+			// assign whatever another field holds (same or different element type)
+			op.Op, op.S = "xset", c20allFields[r.Intn(len(c20allFields))]
+			from := r.Intn(len(c20allFields))
+			if r.Chance(1, 2) {
+				// same shape as the target: repeated into repeated, map into map, scalar into scalar
+				_, shape := fieldKind(op.S)
+				for tries := 0; tries < 20; tries++ {
+					if _, sh := fieldKind(c20allFields[from]); sh == shape {
+						break
+					}
+					from = r.Intn(len(c20allFields))
+				}
+			}
+			op.Args = []int64{int64(from)}
+		} else if theme == 0 && r.Chance(1, 25) {
+			op.Op, op.S, op.Args = "setf", c20allFields[r.Intn(len(c20allFields))], nil
+		}
+		if theme == 2 {
+			// themed history "containers of every element type, assigned across
+			// fields": fill repeated and map fields with well-typed content, then
+			// assign one field's view to another field of the same shape (same or
+			// different element type), read, round-trip
+			op.Obj, op.A = r.Pick3(0, 0, 1), int64(r.Pick3(0, 1, 1))
+			containers := append(append([]c20field{}, c20reps...), c20maps...)
+			switch m := r.Intn(100); {
+			case m < 45:
+				op.Op, op.S, op.Args = "set", pickField(containers), nil
+				op.Obj = int(op.A) // fill the source message
+			case m < 85:
+				op.Op, op.S = "xset", pickField(containers)
+				_, shape := fieldKind(op.S)
+				from := r.Intn(len(c20allFields))
+				for tries := 0; tries < 40; tries++ {
+					if _, sh := fieldKind(c20allFields[from]); sh == shape {
+						break
+					}
+					from = r.Intn(len(c20allFields))
+				}
+				op.Args = []int64{int64(from)}
+			case m < 90:
+				op.Op, op.S, op.Args = "append", pickField(c20reps), nil
+			case m < 95:
+				op.Op, op.S, op.Args = "roundtrip", "", nil
+			default:
+				op.Op, op.S, op.Args = "freeze", "", nil
+			}
 		}
 		if theme == 1 {
 			// themed history "wrappers held across a freeze": populate message-
@@ -366,7 +578,7 @@ func (c20) Generate(seed uint64, i int, tier string) *Scenario {
 			op.Obj, op.A = r.Pick3(0, 0, 1), int64(r.Pick3(0, 0, 1))
 			switch m := r.Intn(100); {
 			case m < 30:
-				op.Op, op.S, op.Args = "set", r.Pick([]string{"r_sub", "m_isub", "sub", "r_int32", "m_ss", "r_sub"}), nil
+				op.Op, op.S, op.Args = "set", r.Pick([]string{"r_sub", "m_isub", "sub", "r_int32", "m_ss", "r_sub", "r_rec", "m_srec"}), nil
 			case m < 55:
 				op.Op, op.S = "hold", ""
 				op.Args = []int64{int64(r.Intn(2)), int64(r.Intn(len(c20holdRoutes)))}
@@ -379,7 +591,7 @@ func (c20) Generate(seed uint64, i int, tier string) *Scenario {
 				op.Op, op.S, op.Args = "roundtrip", "", nil
 			}
 		}
-		if vs := c20valuesFor(op.S); len(vs) > 0 && (op.Op == "set" || op.Op == "newkw") && (r.Chance(3, 4) || theme == 1) {
+		if vs := c20valuesFor(op.S); len(vs) > 0 && (op.Op == "set" || op.Op == "setf" || op.Op == "newkw") && (r.Chance(3, 4) || theme >= 1) {
 			op.B = int64(vs[r.Intn(len(vs))])
 		}
 		if (op.Op == "alias_rec") && int(op.A) == op.Obj && !r.Chance(1, 40) {
@@ -406,6 +618,28 @@ var c20holdRoutes = []string{
 	"R = A.sub.child\n",
 	"R = A.rec\n",
 	"R = A.m_ss\n",
+	"R = A.r_int32.append\n", // a method bound before the freeze
+	"R = A.r_sub.append\n",
+	"R = A.r_rec\n",
+	"R = A.m_srec\n",
+	"R = [A.m_srec[k] for k in A.m_srec]\n",
+}
+
+// c20frzForms: operations whose argument expression freezes the target (frz is a
+// host built-in that freezes its first argument and returns its second): the
+// message is frozen by the time the store executes, so it must not change.
+var c20frzForms = []string{
+	"A.r_int32.append(frz(A, 5))",
+	"A.r_int32[0] = frz(A, 6)",
+	"A.f_int32 = frz(A, 7)",
+	"A.m_ss[\"k\"] = frz(A, \"v\")",
+	"A.m_ss[frz(A, \"k2\")] = \"v\"",
+	"A.r_sub.append(frz(A, {\"s\": \"late\"}))",
+	"proto.set_field(A, Msg.f_int32, frz(A, 8))",
+	"A.sub.s = frz(A, \"late\")",
+	"A.r_sub[0].s = frz(A, \"late\")",
+	"A.r_string = [frz(A, \"late\")]",
+	"A.m_isub[1].s = frz(A, \"late\")",
 }
 
 // ---------------------------------------------------------------------------
@@ -436,7 +670,7 @@ func (x *c20run) star(src string, env starlark.StringDict) (v starlark.Value, er
 	c20progMu.Lock()
 	pg := c20progs[src]
 	if pg == nil {
-		names := map[string]bool{"A": true, "B": true, "V": true, "K": true, "I": true, "Msg": true, "Sub": true, "Color": true, "proto": true}
+		names := map[string]bool{"A": true, "B": true, "V": true, "K": true, "I": true, "Msg": true, "Sub": true, "Color": true, "Shape": true, "proto": true, "frz": true}
 		_, p, cerr := starlark.SourceProgramOptions(allOn.FileOptions(), "op", src, func(n string) bool { return names[n] })
 		if cerr != nil {
 			c20progMu.Unlock()
@@ -638,27 +872,46 @@ func expectScalar(kind string, v starlark.Value) string {
 			return "either"
 		}
 		return "fail"
-	case "enum":
+	case "enum", "shape":
+		ed := c20color
+		if kind == "shape" {
+			ed = c20shape
+		}
 		switch e := v.(type) {
 		case starproto.EnumValueDescriptor:
-			if e.Desc.Parent() == c20color {
+			if e.Desc.Parent() == ed {
 				return "store"
 			}
-			return "fail"
+			return "fail" // a value of another enum type is not of the field's type
 		case starlark.Int:
 			n, err := starlark.AsInt32(e)
 			if err != nil {
 				return "fail" // not even an int32: outside the range of every enum
 			}
-			if c20color.Values().ByNumber(protoreflect.EnumNumber(n)) != nil {
+			if ed.Values().ByNumber(protoreflect.EnumNumber(n)) != nil {
 				return "store"
 			}
 			return "either"
 		case starlark.String:
-			if c20color.Values().ByName(protoreflect.Name(string(e))) != nil {
+			if ed.Values().ByName(protoreflect.Name(string(e))) != nil {
 				return "store"
 			}
 			return "fail"
+		}
+		return "fail"
+	case "msg:Sub", "msg:Msg":
+		md := c20sub
+		if kind == "msg:Msg" {
+			md = c20msg
+		}
+		switch m := v.(type) {
+		case *starproto.Message:
+			if m.Message().ProtoReflect().Descriptor() == md {
+				return "store"
+			}
+			return "fail" // a message of another type
+		case *starlark.Dict:
+			return "either" // field-by-field construction: depends on the entries
 		}
 		return "fail"
 	}
@@ -668,7 +921,20 @@ func expectScalar(kind string, v starlark.Value) string {
 // sameScalar compares a value read back from a field with the value written.
 func sameScalar(kind string, got, want starlark.Value) bool {
 	switch kind {
-	case "enum":
+	case "msg:Sub", "msg:Msg":
+		g, ok := got.(*starproto.Message)
+		w, ok2 := want.(*starproto.Message)
+		if !ok2 {
+			return true // built from a dict: nothing exact to compare with
+		}
+		if !ok {
+			return false
+		}
+		if hasCycle(g.Message().ProtoReflect(), map[protoreflect.Message]bool{}) || hasCycle(w.Message().ProtoReflect(), map[protoreflect.Message]bool{}) {
+			return true // a self-containing message cannot be encoded (reported by afterOp as cyclic-message)
+		}
+		return bytes.Equal(detEnc(g), detEnc(w))
+	case "enum", "shape":
 		g, ok := got.(starproto.EnumValueDescriptor)
 		if !ok || g.Desc == nil {
 			return false
@@ -735,8 +1001,24 @@ func (p c20) Run(sc *Scenario) *Result {
 	x.th = &starlark.Thread{Name: "c20"}
 	x.env = starlark.StringDict{
 		"Msg": starproto.MessageDescriptor{Desc: c20msg}, "Sub": starproto.MessageDescriptor{Desc: c20sub},
-		"Color": starproto.EnumDescriptor{Desc: c20color}, "proto": starproto.Module,
+		"Color": starproto.EnumDescriptor{Desc: c20color}, "Shape": starproto.EnumDescriptor{Desc: c20shape}, "proto": starproto.Module,
 	}
+	x.env["frz"] = starlark.NewBuiltin("frz", func(_ *starlark.Thread, _ *starlark.Builtin, args starlark.Tuple, _ []starlark.Tuple) (starlark.Value, error) {
+		if len(args) != 2 {
+			return nil, fmt.Errorf("frz: want (message, value)")
+		}
+		args[0].Freeze()
+		if m, ok := args[0].(*starproto.Message); ok {
+			x.frozenMsg[m] = true
+			for i, v := range x.vars {
+				if v == m && !x.frozen[i] {
+					x.frozen[i] = true
+					x.snaps[i] = detEnc(m) // content at the instant of the freeze
+				}
+			}
+		}
+		return args[1], nil
+	})
 	for i := range x.vars {
 		v, _, _ := x.star("R = Msg()\n", x.env)
 		m, ok := v.(*starproto.Message)
@@ -826,7 +1108,7 @@ func (x *c20run) apply(op Op) {
 	nviol := len(x.res.Violations)
 	A, B := x.vars[op.Obj], x.vars[op.A]
 	V := c20pool[op.B].v()
-	env := starlark.StringDict{"A": A, "B": B, "V": V, "Msg": x.env["Msg"], "Sub": x.env["Sub"], "Color": x.env["Color"], "proto": x.env["proto"]}
+	env := starlark.StringDict{"A": A, "B": B, "V": V, "Msg": x.env["Msg"], "Sub": x.env["Sub"], "Color": x.env["Color"], "Shape": x.env["Shape"], "proto": x.env["proto"], "frz": x.env["frz"]}
 	targetFrozen := x.frozen[op.Obj]
 	run := func(src string) (starlark.Value, error) {
 		v, err, pv := x.star(src, env)
@@ -885,7 +1167,7 @@ func (x *c20run) apply(op Op) {
 		if v, err := run(c20holdRoutes[route]); err == nil && v != nil {
 			x.held[slot], x.heldOwner[slot] = v, A
 			// default (absent) sub-messages and views are frozen empties by design
-			fieldOf := map[int]string{0: "r_sub", 1: "r_sub", 2: "r_sub", 3: "sub", 4: "m_isub", 5: "m_isub", 6: "r_int32", 7: "r_sub", 8: "r_sub", 9: "m_isub", 10: "sub", 11: "rec", 12: "m_ss"}[route]
+			fieldOf := map[int]string{0: "r_sub", 1: "r_sub", 2: "r_sub", 3: "sub", 4: "m_isub", 5: "m_isub", 6: "r_int32", 7: "r_sub", 8: "r_sub", 9: "m_isub", 10: "sub", 11: "rec", 12: "m_ss", 13: "r_int32", 14: "r_sub", 15: "r_rec", 16: "m_srec", 17: "m_srec"}[route]
 			x.heldHad[slot] = A.Message().ProtoReflect().Has(c20msg.Fields().ByName(protoreflect.Name(fieldOf)))
 			if route == 10 {
 				s := A.Message().ProtoReflect().Get(c20msg.Fields().ByName("sub")).Message()
@@ -908,7 +1190,9 @@ func (x *c20run) apply(op Op) {
 				src = "def op():\n    A.f_int32 = 77\nop()\nR = None\n"
 			}
 		case *starproto.RepeatedField:
-			if hv.Len() > 0 && strings.Contains(hv.Type(), "Sub") {
+			if hv.Len() > 0 && strings.Contains(hv.Type(), "Msg") {
+				src = "def op():\n    A[0].f_int32 = 79\nop()\nR = None\n"
+			} else if hv.Len() > 0 && strings.Contains(hv.Type(), "Sub") {
 				src = "def op():\n    A[0].s = \"through-held-view\"\nop()\nR = None\n"
 			} else if strings.Contains(hv.Type(), "int32") {
 				src = "def op():\n    A.append(5)\nop()\nR = None\n"
@@ -916,12 +1200,28 @@ func (x *c20run) apply(op Op) {
 		case *starproto.MapField:
 			if strings.Contains(hv.Type(), "string, string") {
 				src = "def op():\n    A[\"held\"] = \"v\"\nop()\nR = None\n"
+			} else if strings.Contains(hv.Type(), "Msg") {
+				if hv.Len() > 0 {
+					src = "def op():\n    for k in A:\n        A[k].f_int32 = 80\nop()\nR = None\n"
+				}
 			} else if hv.Len() > 0 {
 				src = "def op():\n    A[1].s = \"through-held-map\"\nop()\nR = None\n"
 			}
 		case *starlark.List:
 			if hv.Len() > 0 {
-				src = "def op():\n    A[0].s = \"through-held-element\"\nop()\nR = None\n"
+				if m, ok := hv.Index(0).(*starproto.Message); ok && m.Message().ProtoReflect().Descriptor() == c20msg {
+					src = "def op():\n    A[0].f_int32 = 78\nop()\nR = None\n"
+				} else {
+					src = "def op():\n    A[0].s = \"through-held-element\"\nop()\nR = None\n"
+				}
+			}
+		case *starlark.Builtin:
+			if rf, ok := hv.Receiver().(*starproto.RepeatedField); ok {
+				if strings.Contains(rf.Type(), "int32") {
+					src = "def op():\n    A(5)\nop()\nR = None\n"
+				} else {
+					src = "def op():\n    A({\"s\": \"through-bound-method\"})\nop()\nR = None\n"
+				}
 			}
 		}
 		if src == "" {
@@ -934,14 +1234,26 @@ func (x *c20run) apply(op Op) {
 		if x.heldHad[slot] && x.frozenMsg[x.heldOwner[slot]] && err == nil {
 			x.fail("mutation-of-frozen-message-succeeded", "a wrapper obtained from the message before it was frozen still accepted %s", strings.TrimSpace(strings.Split(src, "\n")[1]))
 		}
-	case "set":
+	case "set", "xset", "setf":
 		kind, shape := fieldKind(op.S)
-		var before []byte
-		if shape != "scalar" {
-			before = detEnc(A)
+		src := fmt.Sprintf("def op():\n    A.%s = V\nop()\nR = None\n", op.S)
+		switch op.Op {
+		case "xset":
+			// the value is whatever another field of B holds: a scalar, an enum
+			// value of this or the other enum type, a sub-message, or a repeated
+			// / map view (whose element type may or may not be the target's)
+			from := c20allFields[int(op.Args[0])%len(c20allFields)]
+			bv, err := B.Attr(from)
+			if err != nil || bv == nil {
+				return
+			}
+			V = bv
+			env["V"] = V
+			src = fmt.Sprintf("def op():\n    A.%s = B.%s\nop()\nR = None\n", op.S, from)
+		case "setf":
+			src = fmt.Sprintf("def op():\n    proto.set_field(A, Msg.%s, V)\nop()\nR = None\n", op.S)
 		}
-		_ = before
-		_, err := run(fmt.Sprintf("def op():\n    A.%s = V\nop()\nR = None\n", op.S))
+		_, err := run(src)
 		if len(x.res.Violations) > nviol || mustFailFrozen(err, "assignment to ."+op.S) {
 			return
 		}
@@ -949,20 +1261,24 @@ func (x *c20run) apply(op Op) {
 			x.rejected++
 			return
 		}
+		if V == starlark.None {
+			return // None unsets the field
+		}
 		switch shape {
-		case "scalar":
-			if V == starlark.None {
-				return // None unsets the field
-			}
-			x.judgeScalar(kind, V, err, func() starlark.Value { r, _ := A.Attr(op.S); return r })
+		case "scalar", "msg":
+			x.judgeScalar(kind, V, err, func() starlark.Value {
+				if op.Op == "setf" {
+					if r, _, _ := x.star(fmt.Sprintf("R = proto.get_field(A, Msg.%s)\n", op.S), env); r != nil {
+						return r
+					}
+				}
+				r, _ := A.Attr(op.S)
+				return r
+			})
 		case "rep":
 			x.judgeRepeated(kind, A, op.S, V, err)
-		default:
-			if err == nil {
-				x.accepted++
-			} else {
-				x.rejected++
-			}
+		case "map":
+			x.judgeMap(kind, A, op.S, V, err)
 		}
 	case "setsub":
 		kind, _ := fieldKind(op.S)
@@ -1032,13 +1348,38 @@ func (x *c20run) apply(op Op) {
 		if len(x.res.Violations) > nviol {
 			return
 		}
-		if had {
-			mustFailFrozen(err, "map entry assignment on ."+op.S)
+		if had && mustFailFrozen(err, "map entry assignment on ."+op.S) {
+			return
 		}
-		if err == nil {
-			x.accepted++
-		} else {
+		if !had || targetFrozen {
+			return // the default (absent) map field is a frozen empty view
+		}
+		kind, _ := fieldKind(op.S)
+		kk, vk, _ := strings.Cut(kind, ":")
+		verdict := worse(expectScalar(kk, K), expectScalar(vk, V))
+		if err != nil {
 			x.rejected++
+			if verdict == "store" {
+				x.fail("valid-value-rejected", "map entry %s: %s for map<%s>: %v", c20pool[int(op.Args[0])%len(c20pool)].desc, c20pool[op.B].desc, kind, err)
+			}
+			return
+		}
+		x.accepted++
+		if verdict == "fail" {
+			x.fail("invalid-value-accepted", "map<%s> accepted key %s / value %s", kind, c20pool[int(op.Args[0])%len(c20pool)].desc, c20pool[op.B].desc)
+			return
+		}
+		if verdict == "store" && vk != "float" {
+			r, _ := A.Attr(op.S)
+			mf, ok := r.(*starproto.MapField)
+			if !ok {
+				x.fail("lossy-assignment", "map field reads back as %v", r)
+				return
+			}
+			got, found, gerr := mf.Get(K)
+			if gerr != nil || !found || !sameScalar(vk, got, V) {
+				x.fail("lossy-assignment", "map<%s>[%s] = %s succeeded but reads back %v (found=%v err=%v)", kind, c20pool[int(op.Args[0])%len(c20pool)].desc, c20pool[op.B].desc, got, found, gerr)
+			}
 		}
 	case "alias_sub", "alias_rec", "alias_child":
 		src := map[string]string{"alias_sub": "A.sub = B.sub", "alias_rec": "A.rec = B", "alias_child": "A.sub = B.sub.child"}[op.Op]
@@ -1070,6 +1411,10 @@ func (x *c20run) apply(op Op) {
 			}
 		}
 		_ = fd
+	case "frzarg":
+		form := c20frzForms[int(op.Args[0])%len(c20frzForms)]
+		run("def op():\n    " + form + "\nop()\nR = None\n")
+		// (the snapshot taken by frz at freeze time is compared after the op)
 	case "viewmut":
 		_, err := run("def op():\n    vw = A.r_sub\n    vw[0].s = \"through-view\"\nop()\nR = None\n")
 		if len(x.res.Violations) > nviol {
@@ -1174,14 +1519,6 @@ func (x *c20run) judgeRepeated(kind string, A *starproto.Message, field string, 
 		elems = append(elems, e)
 	}
 	iter.Done()
-	if strings.HasPrefix(kind, "msg") {
-		if err == nil {
-			x.accepted++
-		} else {
-			x.rejected++
-		}
-		return
-	}
 	worst := "store"
 	for _, e := range elems {
 		switch expectScalar(kind, e) {
@@ -1225,6 +1562,68 @@ func (x *c20run) judgeRepeated(kind string, A *starproto.Message, field string, 
 	}
 }
 
+func worse(a, b string) string {
+	rank := map[string]int{"store": 0, "either": 1, "fail": 2}
+	if rank[b] > rank[a] {
+		return b
+	}
+	return a
+}
+
+// judgeMap: whole-field assignment to a map field.
+func (x *c20run) judgeMap(kind string, A *starproto.Message, field string, V starlark.Value, err error) {
+	kk, vk, _ := strings.Cut(kind, ":")
+	mp, ok := V.(starlark.IterableMapping)
+	if !ok {
+		if err == nil {
+			x.fail("invalid-value-accepted", "map field accepted a %s", V.Type())
+		} else {
+			x.rejected++
+		}
+		return
+	}
+	items := mp.Items()
+	worst := "store"
+	for _, it := range items {
+		worst = worse(worst, worse(expectScalar(kk, it[0]), expectScalar(vk, it[1])))
+	}
+	if err != nil {
+		x.rejected++
+		if worst == "store" {
+			x.fail("valid-value-rejected", "map<%s>: %v", kind, err)
+		}
+		return
+	}
+	x.accepted++
+	if worst == "fail" {
+		x.fail("invalid-value-accepted", "map<%s> accepted a key or value of the wrong type or range", kind)
+		return
+	}
+	r, _ := A.Attr(field)
+	mf, ok := r.(*starproto.MapField)
+	if !ok {
+		x.fail("lossy-assignment", "map<%s> reads back as %v", kind, r)
+		return
+	}
+	if worst == "store" && mf.Len() != len(items) {
+		x.fail("lossy-assignment", "map<%s>: assigned %d entries, reads back %d", kind, len(items), mf.Len())
+		return
+	}
+	if vk == "float" {
+		return
+	}
+	for _, it := range items {
+		if expectScalar(kk, it[0]) != "store" || expectScalar(vk, it[1]) != "store" {
+			continue
+		}
+		got, found, gerr := mf.Get(it[0])
+		if gerr != nil || !found || !sameScalar(vk, got, it[1]) {
+			x.fail("lossy-assignment", "map<%s>: entry %v: %v reads back %v (found=%v err=%v)", kind, it[0], it[1], got, found, gerr)
+			return
+		}
+	}
+}
+
 func (c20) Shrink(sc *Scenario) []*Scenario {
 	var out []*Scenario
 	for i := len(sc.Ops) - 1; i >= 0; i-- {
@@ -1254,7 +1653,14 @@ func (c20) Shape(sc *Scenario, class string) string {
 		case "copy":
 			copyOp = true
 		}
-		if o.Op == "set" || o.Op == "append" || o.Op == "setidx" || o.Op == "alias_rep" || o.Op == "alias_map" || o.Op == "newkw" {
+		if o.Op == "xset" {
+			// assigning a message (or a container of messages) read from another
+			// field aliases it, like alias_sub / alias_rep
+			if k, _ := fieldKind(o.S); strings.Contains(k, "msg") {
+				alias = true
+			}
+		}
+		if o.Op == "set" || o.Op == "xset" || o.Op == "setf" || o.Op == "append" || o.Op == "setidx" || o.Op == "alias_rep" || o.Op == "alias_map" || o.Op == "newkw" {
 			k, shape := fieldKind(o.S)
 			s += ":" + shape + ":" + k
 		}
